@@ -492,6 +492,47 @@ func (c19) execOne(sc *sim.Scenario) *sim.Outcome {
 				return finish(out, lh, sig, start)
 			}
 		}
+		// (b') every batch's predictions written with Patch, in two pieces, into a
+		// tensor that holds other labels (the targets) and was already read,
+		// compared and reduced before: nothing remembered about the old tensor
+		// may show through in the patched one
+		{
+			tw := metrics.NewAccuracy()
+			pos := 0
+			for _, n := range batches[c] {
+				base := vec(allT[c][pos:pos+n], false)
+				_ = base.Sum()
+				_ = base.Max()
+				if _, err := base.Eq(base); err != nil {
+					out.Fail("valid-call-rejected", "twin: Eq of a [%d] tensor with itself failed: %v", n, err)
+					return finish(out, lh, sig, start)
+				}
+				warm := metrics.NewAccuracy()
+				_ = warm.Accumulate(base, base)
+				h := n / 2
+				p := base
+				var err error
+				if h > 0 {
+					p, err = p.Patch([]tensor.Range{{From: 0, To: h}}, vec(allP[c][pos:pos+h], false))
+				}
+				if err == nil {
+					p, err = p.Patch([]tensor.Range{{From: h, To: n}}, vec(allP[c][pos+h:pos+n], false))
+				}
+				if err != nil {
+					out.Fail("valid-call-rejected", "twin: Patch of a [%d] tensor in two pieces failed: %v", n, err)
+					return finish(out, lh, sig, start)
+				}
+				if err := tw.Accumulate(p, vec(allT[c][pos:pos+n], false)); err != nil {
+					out.Fail("valid-call-rejected", "twin: Accumulate of patched predictions failed: %v", err)
+					return finish(out, lh, sig, start)
+				}
+				pos += n
+			}
+			out.Faults["reorder/delivered-via-patch"]++
+			if !same(tw, "tensors patched into previously used tensors") {
+				return finish(out, lh, sig, start)
+			}
+		}
 		// (c) small non-negative integer predictions decoded from one-hot rows with Dot
 		k := 0
 		ok := true
